@@ -805,3 +805,31 @@ func isFinderResult(fcs []finderCall, v ssa.Value) bool {
 	}
 	return false
 }
+
+var sinkWriteKeys = []string{"(*bytes.Buffer).WriteString", "(*strings.Builder).WriteString", "(*bytes.Buffer).WriteByte", "(*strings.Builder).WriteByte",
+	"(*bytes.Buffer).WriteRune", "(*strings.Builder).WriteRune"}
+
+// isSinkWrite: the instruction appends to a bytes.Buffer / strings.Builder.
+func isSinkWrite(in ssa.Instruction) bool {
+	ci, ok := in.(ssa.CallInstruction)
+	return ok && core.IsCallTo(ci, sinkWriteKeys...)
+}
+
+// sinkWritten renders what a buffer/builder write appends, as a string expression: the argument
+// of WriteString, or the one-character string for WriteByte/WriteRune of a constant
+// (`WriteByte('\n')` and `WriteString("\n")` are the same write).
+func sinkWritten(in ssa.Instruction, c *core.Canon) (string, bool) {
+	ci, ok := in.(ssa.CallInstruction)
+	if !ok || !core.IsCallTo(ci, sinkWriteKeys...) || len(ci.Common().Args) != 2 {
+		return "", false
+	}
+	a := ci.Common().Args[1]
+	if k, isC := core.StripConv(a).(*ssa.Const); isC && k.Value != nil {
+		if _, isBasic := k.Type().Underlying().(*types.Basic); isBasic {
+			if n, isInt := core.ConstInt(k); isInt && !core.IsCallTo(ci, "(*bytes.Buffer).WriteString", "(*strings.Builder).WriteString") {
+				return strconv.Quote(string(rune(n))), true
+			}
+		}
+	}
+	return c.Of(a), true
+}
